@@ -73,7 +73,6 @@ Definition mon_cycle (c : cfg) (mo : mon) (now hb : Z) (ctrs : list ctr) (ev : o
     (* a lost heartbeat counter closes the client *)
     && Bool.eqb (has L_HEARTBEAT_LOST log) lost
     && (cl =? b2z (m_closed mo || late || lost))
-    && Bool.eqb (has L_CLOSE log) (late || lost)
     (* the heartbeat counter is set to the time of this cycle at a keep-alive, nothing else is written *)
     && list_eqb vs (match fate with Refresh id => upd (m_vals mo) (Z.to_nat id) now | _ => m_vals mo end) in
   if ok then
